@@ -104,7 +104,11 @@ struct fsl_edge
     double pass_elevation;
     double pass_length;
 };
-#define FSL_EDGE_BYTES sizeof(struct fsl_edge) /* `count * sizeof(T)` makes is_fresh allocate a TYPED array (a byte array makes every element read a byte_extract: 10-100x slower) */
+#ifndef FSL_EDGE_BYTES
+/* `count * sizeof(T)` makes is_fresh allocate a TYPED array (element reads are field accesses); a plain byte count (-DFSL_EDGE_BYTES=48)
+ * makes it a byte array (element reads are byte_extracts).  Which one the solver likes better depends on the group: measured per group. */
+#define FSL_EDGE_BYTES sizeof(struct fsl_edge)
+#endif
 
 /* lengths / ghost capacities of the member vectors (globals: modified by resize / clear / push_back) */
 size_t m_edges_n, m_edges_cap;
